@@ -391,10 +391,10 @@ Qed.
 Lemma setup_loop_write_default : forall pfx ds nt b d ty,
   NoDup (public_keys pfx ds) -> In (d, ty) ds -> public d = true ->
   nt_get (fst (setup_loop pfx ds nt b)) (decl_key pfx d) =
-  if d_wd d then Some (ty, canon (d_default d))
+  if d_wd d then Some (ty, entry_value ty (d_default d))
   else match nt_get nt (decl_key pfx d) with
        | Some tv => Some tv
-       | None => Some (ty, canon (d_default d))
+       | None => Some (ty, entry_value ty (d_default d))
        end.
 Proof.
   induction ds as [|[d0 t0] ds IH]; intros nt b d ty Hnd Hin Hpub; [destruct Hin|].
@@ -437,7 +437,7 @@ Lemma setup_loop_binds : forall pfx ds nt b d ty,
   NoDup (map (fun x => d_attr (fst x)) ds) -> In (d, ty) ds -> public d = true ->
   (forall e, bind_get b (d_attr d) = Some e -> False) ->
   bind_get (snd (setup_loop pfx ds nt b)) (d_attr d) =
-  Some (decl_key pfx d, ty, canon (d_default d)).
+  Some (decl_key pfx d, ty, entry_value ty (d_default d)).
 Proof.
   assert (Hkeep : forall pfx ds nt b a,
     (forall d ty, In (d, ty) ds -> d_attr d <> a) ->
@@ -534,10 +534,10 @@ Theorem setup_write_default : forall w i cls p c d,
   snd (step w (Setup i cls p c)) = EvSetup true ->
   exists ty, decl_topic (d_default d) (d_hint d) = Ok ty /\
   nt_get (w_nt (fst (step w (Setup i cls p c)))) (key_of p c (d_subtable d) (d_attr d)) =
-  if d_wd d then Some (ty, canon (d_default d))
+  if d_wd d then Some (ty, entry_value ty (d_default d))
   else match nt_get (w_nt w) (key_of p c (d_subtable d) (d_attr d)) with
        | Some tv => Some tv
-       | None => Some (ty, canon (d_default d))
+       | None => Some (ty, entry_value ty (d_default d))
        end.
 Proof.
   intros w i cls p c d Hnd Hns Hin Hpub Hok.
@@ -568,7 +568,7 @@ Theorem setup_binds : forall w i cls p c d,
   snd (step w (Setup i cls p c)) = EvSetup true ->
   exists b ty, inst_get (w_inst (fst (step w (Setup i cls p c)))) i = Some b /\
     decl_topic (d_default d) (d_hint d) = Ok ty /\
-    bind_get b (d_attr d) = Some (key_of p c (d_subtable d) (d_attr d), ty, canon (d_default d)).
+    bind_get b (d_attr d) = Some (key_of p c (d_subtable d) (d_attr d), ty, entry_value ty (d_default d)).
 Proof.
   intros w i cls p c d Hnd Hin Hpub Hok.
   destruct (class_topics cls) as [ds|] eqn:Hc.
@@ -584,7 +584,7 @@ Qed.
 (* attribute access on a bound tunable goes to the topic at the documented key *)
 Theorem bound_write_reaches_topic : forall w i b a k ty d v,
   inst_get (w_inst w) i = Some b -> bind_get b a = Some (k, ty, d) ->
-  nt_get (w_nt (fst (step w (PyWrite i a v)))) k = Some (ty, canon v).
+  nt_get (w_nt (fst (step w (PyWrite i a v)))) k = Some (ty, entry_value ty v).
 Proof.
   intros. simpl. rewrite H, H0. simpl. apply nt_get_set_same.
 Qed.
@@ -939,7 +939,7 @@ Theorem setup_binds_spelled : forall w i cls p c d sp h,
   snd (step w (Setup i cls p c)) = EvSetup true ->
   exists b ty, inst_get (w_inst (fst (step w (Setup i cls p c)))) i = Some b /\
     spec_decl (d_default d) h = Some ty /\
-    bind_get b (d_attr d) = Some (key_of p c (d_subtable d) (d_attr d), ty, canon (d_default d)).
+    bind_get b (d_attr d) = Some (key_of p c (d_subtable d) (d_attr d), ty, entry_value ty (d_default d)).
 Proof.
   intros w i cls p c d sp h Hnd Hin Hpub Hh Hs.
   destruct (setup_binds w i cls p c d Hnd Hin Hpub Hs) as (b & ty & Hb & Ht & Hg).
@@ -1190,7 +1190,7 @@ Qed.
 (* attribute assignment on a (possibly falsy) owner lands in its topic *)
 Theorem write_reaches_topic_any_truth : forall w i t b a k ty d v,
   inst_get (w_inst w) i = Some b -> bind_get b a = Some (k, ty, d) ->
-  nt_get (w_nt (fst (tunable_set w (i, t) a v))) k = Some (ty, canon v).
+  nt_get (w_nt (fst (tunable_set w (i, t) a v))) k = Some (ty, entry_value ty v).
 Proof.
   intros. rewrite tunable_set_instance. eapply bound_write_reaches_topic; eassumption.
 Qed.
@@ -1431,12 +1431,12 @@ Theorem setup_hierarchy : forall w i mro p c d,
   snd (step w (setup_class i mro p c)) = EvSetup true ->
   exists b ty, inst_get (w_inst (fst (step w (setup_class i mro p c)))) i = Some b /\
     decl_topic (d_default d) (d_hint d) = Ok ty /\
-    bind_get b (d_attr d) = Some (key_of p c (d_subtable d) (d_attr d), ty, canon (d_default d)) /\
+    bind_get b (d_attr d) = Some (key_of p c (d_subtable d) (d_attr d), ty, entry_value ty (d_default d)) /\
     nt_get (w_nt (fst (step w (setup_class i mro p c)))) (key_of p c (d_subtable d) (d_attr d)) =
-    if d_wd d then Some (ty, canon (d_default d))
+    if d_wd d then Some (ty, entry_value ty (d_default d))
     else match nt_get (w_nt w) (key_of p c (d_subtable d) (d_attr d)) with
          | Some tv => Some tv
-         | None => Some (ty, canon (d_default d))
+         | None => Some (ty, entry_value ty (d_default d))
          end.
 Proof.
   intros w i mro p c d Hns Hg Hpub Hok. unfold setup_class in *.
@@ -1468,18 +1468,330 @@ Theorem setup_hierarchy_read : forall w i mro p c d,
   (forall b m, In b mro -> In m b -> no_slash (member_name m) = true) ->
   class_getattr mro (d_attr d) = Some (MTun d) -> public d = true ->
   snd (step w (setup_class i mro p c)) = EvSetup true ->
+  exists ty, decl_topic (d_default d) (d_hint d) = Ok ty /\
   py_read (fst (step w (setup_class i mro p c))) i (d_attr d) =
-  EvVal (if d_wd d then canon (d_default d)
+  EvVal (if d_wd d then entry_value ty (d_default d)
          else match nt_get (w_nt w) (key_of p c (d_subtable d) (d_attr d)) with
               | Some (_, v) => v
-              | None => canon (d_default d)
+              | None => entry_value ty (d_default d)
               end).
 Proof.
   intros w i mro p c d Hns Hg Hpub Hok.
-  destruct (setup_hierarchy w i mro p c d Hns Hg Hpub Hok) as [b [ty [Hb [_ [Hbind Hnt]]]]].
+  destruct (setup_hierarchy w i mro p c d Hns Hg Hpub Hok) as [b [ty [Hb [Hty [Hbind Hnt]]]]].
+  exists ty. split; [exact Hty|].
   destruct (d_wd d).
   - apply (bound_read_sees_topic _ i b _ _ _ _ ty _ Hb Hbind Hnt).
   - destruct (nt_get (w_nt w) (key_of p c (d_subtable d) (d_attr d))) as [[t v]|].
     + apply (bound_read_sees_topic _ i b _ _ _ _ t _ Hb Hbind Hnt).
     + apply (bound_read_sees_topic _ i b _ _ _ _ ty _ Hb Hbind Hnt).
+Qed.
+
+(* ================================================================== *)
+(* K. What a typed entry stores: a value of the topic's type is stored  *)
+(*    and read back as it is, whatever Python type the default has      *)
+(* ================================================================== *)
+
+Lemma map_id_on : forall (A : Type) (f : A -> A) l, (forall x, In x l -> f x = x) -> map f l = l.
+Proof.
+  induction l as [|x l IH]; intros H; simpl; [reflexivity|].
+  rewrite (H x (or_introl eq_refl)), IH; [reflexivity|]. intros y Hy. apply H. now right.
+Qed.
+
+Lemma to_double_float : forall s, base_eqb (base_of s) BFloat = true -> to_double s = s.
+Proof. destruct s; simpl; intros H; try discriminate H; reflexivity. Qed.
+Lemma to_integer_int : forall s, base_eqb (base_of s) BInt = true -> to_integer s = s.
+Proof. destruct s; simpl; intros H; try discriminate H; reflexivity. Qed.
+
+(* no conversion happens to a value of the topic's type *)
+Theorem entry_value_fits : forall ty v, fits ty v = true -> entry_value ty v = canon v.
+Proof.
+  intros ty v H. unfold fits in H. unfold entry_value.
+  destruct ty; simpl in H; destruct v as [s|l|l]; simpl; try discriminate H; try reflexivity.
+  - now rewrite to_integer_int.
+  - now rewrite to_double_float.
+  - rewrite map_id_on; [reflexivity|]. rewrite forallb_forall in H. intros x Hx. now apply to_integer_int, H.
+  - rewrite map_id_on; [reflexivity|]. rewrite forallb_forall in H. intros x Hx. now apply to_integer_int, H.
+  - rewrite map_id_on; [reflexivity|]. rewrite forallb_forall in H. intros x Hx. now apply to_double_float, H.
+  - rewrite map_id_on; [reflexivity|]. rewrite forallb_forall in H. intros x Hx. now apply to_double_float, H.
+Qed.
+
+(* the numeric tower: an int handed to a double entry is that number as a
+   float (floats are n/64: z = 64z/64), a bool handed to an int entry 0 / 1 *)
+Lemma entry_value_int_on_double : forall z,
+  entry_value NDouble (VScalar (SInt z)) = VScalar (SFloat (64 * z)) /\
+  forall l, entry_value NDoubleArr (VList (map SInt l)) = VList (map (fun z => SFloat (64 * z)) l) /\
+            entry_value NDoubleArr (VTuple (map SInt l)) = VList (map (fun z => SFloat (64 * z)) l).
+Proof.
+  intros z. split; [reflexivity|]. intros l. unfold entry_value. simpl. rewrite map_map. now split.
+Qed.
+
+(* the result of a conversion is always a value of the topic's type when the
+   argument is one of the numeric tower below it *)
+Lemma entry_value_double_fits : forall s,
+  (exists z, s = SInt z) \/ (exists b, s = SBool b) \/ (exists n, s = SFloat n) ->
+  fits NDouble (entry_value NDouble (VScalar s)) = true.
+Proof. intros s [[z ->]|[[b ->]|[n ->]]]; reflexivity. Qed.
+
+(* instance.attr = v ; instance.attr  -- what the entry made of v *)
+Theorem py_write_read_back : forall w i b a k ty d v,
+  inst_get (w_inst w) i = Some b -> bind_get b a = Some (k, ty, d) ->
+  py_read (fst (step w (PyWrite i a v))) i a = EvVal (entry_value ty v).
+Proof.
+  intros w i b a k ty d v Hi Ha. simpl. rewrite Hi, Ha. simpl.
+  unfold py_read. simpl. rewrite Hi, Ha. now rewrite nt_get_set_same.
+Qed.
+
+(* a python-side write of ANY value of the topic's type is what the topic
+   holds and what the next read returns *)
+Theorem write_typed_value_reads_back : forall w i b a k ty d v,
+  inst_get (w_inst w) i = Some b -> bind_get b a = Some (k, ty, d) -> fits ty v = true ->
+  py_read (fst (step w (PyWrite i a v))) i a = EvVal (canon v) /\
+  nt_get (w_nt (fst (step w (PyWrite i a v)))) k = Some (ty, canon v).
+Proof.
+  intros w i b a k ty d v Hi Ha Hf. rewrite <- (entry_value_fits ty v Hf). split.
+  - eapply py_write_read_back; eassumption.
+  - eapply bound_write_reaches_topic; eassumption.
+Qed.
+
+Lemma op_writes_py_typed : forall w j a v k b ty d,
+  inst_get (w_inst w) j = Some b -> bind_get b a = Some (k, ty, d) -> fits ty v = true ->
+  op_writes w (PyWrite j a v) k = Some (canon v).
+Proof.
+  intros w j a v k b ty d Hj Ha Hf. simpl. rewrite Hj, Ha, String.eqb_refl.
+  now rewrite (entry_value_fits ty v Hf).
+Qed.
+
+(* ... through setup: the topic type [ty] comes from the declaration (hint
+   first, else the default); the Python type of the DEFAULT plays no role in
+   what a later assignment stores *)
+Theorem setup_then_write_reads_back : forall w i cls p c d v,
+  NoDup (map d_attr cls) -> In d cls -> public d = true ->
+  snd (step w (Setup i cls p c)) = EvSetup true ->
+  exists ty, decl_topic (d_default d) (d_hint d) = Ok ty /\
+    (fits ty v = true ->
+     py_read (fst (step (fst (step w (Setup i cls p c))) (PyWrite i (d_attr d) v))) i (d_attr d)
+       = EvVal (canon v) /\
+     nt_get (w_nt (fst (step (fst (step w (Setup i cls p c))) (PyWrite i (d_attr d) v))))
+            (key_of p c (d_subtable d) (d_attr d)) = Some (ty, canon v)).
+Proof.
+  intros w i cls p c d v Hnd Hin Hpub Hok.
+  destruct (setup_binds w i cls p c d Hnd Hin Hpub Hok) as [b [ty [Hb [Hty Hbind]]]].
+  exists ty. split; [exact Hty|]. intros Hf.
+  exact (write_typed_value_reads_back _ i b _ _ ty _ v Hb Hbind Hf).
+Qed.
+
+(* ================================================================== *)
+(* J. One tunable object bound by several classes under their own names *)
+(* ================================================================== *)
+
+Lemma opt_all_some : forall (A : Type) (l : list (option A)) r,
+  opt_all l = Some r -> l = map Some r.
+Proof.
+  induction l as [|[x|] l IH]; intros r H; simpl in H; try discriminate.
+  - now injection H as <-.
+  - destruct (opt_all l) as [r'|]; [|discriminate]. injection H as <-.
+    simpl. now rewrite (IH r' eq_refl).
+Qed.
+
+Lemma obind_member_name : forall pr ob m, obind_member pr ob = Some m -> member_name m = obind_name ob.
+Proof.
+  intros pr [n oid ann|n] m H; simpl in H.
+  - unfold obj_decl in H. destruct (nth_error (p_objs pr) oid); simpl in H; [|discriminate].
+    now injection H as <-.
+  - now injection H as <-.
+Qed.
+
+(* attribute lookup on the class commutes with the translation of the class
+   bodies: getattr(cls, n) finds the object the first binding class bound *)
+Lemma body_get_commutes : forall pr b cb n, prog_body pr b = Some cb ->
+  body_get cb n = match obody_get b n with Some ob => obind_member pr ob | None => None end.
+Proof.
+  intros pr. induction b as [|ob b IH]; intros cb n H; unfold prog_body in H; simpl in H.
+  - now injection H as <-.
+  - destruct (obind_member pr ob) as [m|] eqn:Em; [|discriminate].
+    destruct (opt_all (map (obind_member pr) b)) as [cb'|] eqn:Eb; [|discriminate].
+    injection H as <-. simpl. rewrite (obind_member_name pr ob m Em).
+    destruct (String.eqb (obind_name ob) n); [now rewrite Em | now apply IH].
+Qed.
+
+Lemma getattr_commutes : forall pr om mro n, opt_all (map (prog_body pr) om) = Some mro ->
+  class_getattr mro n = match omro_getattr om n with Some ob => obind_member pr ob | None => None end.
+Proof.
+  intros pr. induction om as [|b om IH]; intros mro n H; simpl in H.
+  - now injection H as <-.
+  - destruct (prog_body pr b) as [cb|] eqn:Eb; [|discriminate].
+    destruct (opt_all (map (prog_body pr) om)) as [mro'|] eqn:Em; [|discriminate].
+    injection H as <-. simpl. rewrite (body_get_commutes pr b cb n Eb).
+    destruct (obody_get b n) as [ob|] eqn:Eo.
+    + destruct (obind_member pr ob) as [m|] eqn:Emm; [reflexivity|].
+      (* a body that translated has no untranslatable member *)
+      exfalso. clear - Eb Eo Emm. revert cb Eb. induction b as [|ob' b IHb]; intros cb Eb; [discriminate|].
+      unfold prog_body in Eb. simpl in Eb. simpl in Eo.
+      destruct (obind_member pr ob') as [m'|] eqn:E'; [|discriminate].
+      destruct (opt_all (map (obind_member pr) b)) as [cb'|] eqn:E''; [|discriminate].
+      destruct (String.eqb (obind_name ob') n).
+      * injection Eo as ->. congruence.
+      * apply (IHb Eo cb'). exact E''.
+    + now apply IH.
+Qed.
+
+Lemma obody_get_name : forall b n ob, obody_get b n = Some ob -> obind_name ob = n.
+Proof.
+  induction b as [|ob0 b IH]; intros n ob H; simpl in H; [discriminate|].
+  destruct (String.eqb (obind_name ob0) n) eqn:E.
+  - injection H as <-. now apply String.eqb_eq.
+  - now apply IH.
+Qed.
+Lemma omro_getattr_name : forall om n ob, omro_getattr om n = Some ob -> obind_name ob = n.
+Proof.
+  induction om as [|b om IH]; intros n ob H; simpl in H; [discriminate|].
+  destruct (obody_get b n) as [ob'|] eqn:E.
+  - injection H as <-. now apply (obody_get_name b).
+  - now apply IH.
+Qed.
+
+Lemma prog_body_names : forall pr b cb, prog_body pr b = Some cb ->
+  forall m, In m cb -> exists ob, In ob b /\ member_name m = obind_name ob.
+Proof.
+  intros pr. induction b as [|ob b IH]; intros cb H m Hm; unfold prog_body in H; simpl in H.
+  - injection H as <-. destruct Hm.
+  - destruct (obind_member pr ob) as [m0|] eqn:Em; [|discriminate].
+    destruct (opt_all (map (obind_member pr) b)) as [cb'|] eqn:Eb; [|discriminate].
+    injection H as <-. destruct Hm as [<-|Hm].
+    + exists ob. split; [now left | now apply (obind_member_name pr)].
+    + destruct (IH cb' Eb m Hm) as [ob' [H1 H2]]. exists ob'. split; [now right | assumption].
+Qed.
+
+Lemma prog_mro_names : forall pr om mro, opt_all (map (prog_body pr) om) = Some mro ->
+  (forall b ob, In b om -> In ob b -> no_slash (obind_name ob) = true) ->
+  forall cb m, In cb mro -> In m cb -> no_slash (member_name m) = true.
+Proof.
+  intros pr. induction om as [|b om IH]; intros mro H Hns cb m Hcb Hm; simpl in H.
+  - injection H as <-. destruct Hcb.
+  - destruct (prog_body pr b) as [cb0|] eqn:Eb; [|discriminate].
+    destruct (opt_all (map (prog_body pr) om)) as [mro'|] eqn:Em; [|discriminate].
+    injection H as <-. destruct Hcb as [<-|Hcb].
+    + destruct (prog_body_names pr b cb0 Eb m Hm) as [ob [H1 H2]]. rewrite H2.
+      apply (Hns b ob); [now left | assumption].
+    + apply (IH mro' eq_refl) with (cb := cb); try assumption.
+      intros b' ob' Hb'. apply Hns. now right.
+Qed.
+
+(* THE KEY OF A SHARED OBJECT.  [pr] is ANY program: any number of classes may
+   bind the object [oid] under any names, before or after the class at hand.
+   For the class with MRO [ixs] (class statements [om]) that resolves the
+   public name [n] to the object, a successful setup binds instance.n at
+     <prefix>/<cname>/[subtable of the object/]n
+   -- n, the name in THIS class -- with the object's default / writeDefault
+   flag deciding what the topic holds. *)
+Theorem shared_object_setup : forall w i pr ixs om cls p c n oid ann o,
+  prog_stmts pr ixs = Some om -> prog_class pr ixs = Some cls ->
+  (forall b ob, In b om -> In ob b -> no_slash (obind_name ob) = true) ->
+  omro_getattr om n = Some (OTun n oid ann) ->
+  nth_error (p_objs pr) oid = Some o ->
+  starts_with "_" n = false ->
+  snd (step w (Setup i cls p c)) = EvSetup true ->
+  exists b ty, inst_get (w_inst (fst (step w (Setup i cls p c)))) i = Some b /\
+    decl_topic (t_default o) (obj_hint pr oid) = Ok ty /\
+    bind_get b n = Some (key_of p c (t_subtable o) n, ty, entry_value ty (t_default o)) /\
+    nt_get (w_nt (fst (step w (Setup i cls p c)))) (key_of p c (t_subtable o) n) =
+    if t_wd o then Some (ty, entry_value ty (t_default o))
+    else match nt_get (w_nt w) (key_of p c (t_subtable o) n) with
+         | Some tv => Some tv
+         | None => Some (ty, entry_value ty (t_default o))
+         end.
+Proof.
+  intros w i pr ixs om cls p c n oid ann o Hom Hcls Hns Hget Ho Hpub Hok.
+  unfold prog_class in Hcls. rewrite Hom in Hcls. unfold prog_mro in Hcls. rewrite Hom in Hcls.
+  destruct (opt_all (map (prog_body pr) om)) as [mro|] eqn:Emro; [|discriminate].
+  destruct (nodupb (resolved_ids om)); [|discriminate]. injection Hcls as <-.
+  set (d := mkdecl n (t_default o) (obj_hint pr oid) (t_subtable o) (t_wd o)).
+  assert (Hg : class_getattr mro (d_attr d) = Some (MTun d)).
+  { change (class_getattr mro n = Some (MTun d)).
+    rewrite (getattr_commutes pr om mro n Emro), Hget. simpl. unfold obj_decl. now rewrite Ho. }
+  assert (Hp : public d = true) by (unfold public; simpl; now rewrite Hpub).
+  exact (setup_hierarchy w i mro p c d (prog_mro_names pr om mro Emro Hns) Hg Hp Hok).
+Qed.
+
+(* ---- the topic type of a shared object -------------------------------- *)
+
+Lemma last_call_some : forall l oid y, last_call l oid = Some y -> In (oid, y) l.
+Proof.
+  induction l as [|[j h] l IH]; intros oid y H; simpl in H; [discriminate|].
+  destruct (last_call l oid) as [x|] eqn:E.
+  - injection H as <-. right. now apply IH.
+  - destruct (Nat.eqb j oid) eqn:Ej; [|discriminate]. injection H as <-.
+    apply Nat.eqb_eq in Ej. subst. now left.
+Qed.
+
+Lemma last_call_none : forall l oid x, last_call l oid = None -> ~ In (oid, x) l.
+Proof.
+  induction l as [|[j h] l IH]; intros oid x H Hin; simpl in H; [destruct Hin|].
+  destruct (last_call l oid) as [y|] eqn:E; [discriminate|].
+  destruct (Nat.eqb j oid) eqn:Ej; [discriminate|].
+  destruct Hin as [Hin|Hin].
+  - injection Hin as -> _. now rewrite Nat.eqb_refl in Ej.
+  - exact (IH oid x E Hin).
+Qed.
+
+(* every class body that binds the object makes one __set_name__ call *)
+Lemma bound_object_is_named : forall pr stmt n oid ann o,
+  In stmt (p_stmts pr) -> In (OTun n oid ann) stmt -> nth_error (p_objs pr) oid = Some o ->
+  In (oid, set_name_hint (mksrc (t_orig o) ann)) (set_name_calls pr).
+Proof.
+  intros pr stmt n oid ann o Hs Hb Ho. unfold set_name_calls.
+  apply in_flat_map. exists stmt. split; [assumption|].
+  apply in_flat_map. exists (OTun n oid ann). split; [assumption|]. simpl. rewrite Ho. now left.
+Qed.
+
+Lemma set_name_call_origin : forall pr oid x, In (oid, x) (set_name_calls pr) ->
+  exists stmt n ann o, In stmt (p_stmts pr) /\ In (OTun n oid ann) stmt /\
+    nth_error (p_objs pr) oid = Some o /\ x = set_name_hint (mksrc (t_orig o) ann).
+Proof.
+  intros pr oid x H. unfold set_name_calls in H.
+  apply in_flat_map in H as [stmt [Hs H]]. apply in_flat_map in H as [ob [Hob H]].
+  destruct ob as [n oid' ann|n]; simpl in H; [|destruct H].
+  destruct (nth_error (p_objs pr) oid') as [o|] eqn:Eo; [|destruct H].
+  destruct H as [H|[]]. injection H as -> <-. now exists stmt, n, ann, o.
+Qed.
+
+(* when all the class bodies that bind the object resolve the same hint [hh]
+   for it -- in particular: the object carries a subscript, or nobody
+   annotates it, or everybody writes the same H (in any spelling) -- that is
+   the hint behind its topic type *)
+Theorem shared_object_hint : forall pr oid o hh,
+  nth_error (p_objs pr) oid = Some o ->
+  (exists stmt n ann, In stmt (p_stmts pr) /\ In (OTun n oid ann) stmt) ->
+  (forall stmt n ann, In stmt (p_stmts pr) -> In (OTun n oid ann) stmt ->
+                      set_name_hint (mksrc (t_orig o) ann) = hh) ->
+  obj_hint pr oid = hh.
+Proof.
+  intros pr oid o hh Ho [stmt [n [ann [Hs Hb]]]] Hall. unfold obj_hint.
+  destruct (last_call (set_name_calls pr) oid) as [y|] eqn:E.
+  - apply last_call_some in E. destruct (set_name_call_origin pr oid y E) as [s' [n' [a' [o' [H1 [H2 [H3 H4]]]]]]].
+    rewrite Ho in H3. injection H3 as <-. rewrite H4. now apply (Hall s' n' a').
+  - exfalso. apply (last_call_none _ oid _ E (bound_object_is_named pr stmt n oid ann o Hs Hb Ho)).
+Qed.
+
+Theorem shared_object_hint_subscript : forall pr oid o h,
+  nth_error (p_objs pr) oid = Some o -> t_orig o = Some h ->
+  (exists stmt n ann, In stmt (p_stmts pr) /\ In (OTun n oid ann) stmt) ->
+  obj_hint pr oid = Some h.
+Proof.
+  intros pr oid o h Ho Hh Hb. apply (shared_object_hint pr oid o (Some h) Ho Hb).
+  intros stmt n ann _ _. unfold set_name_hint. simpl. now rewrite Hh.
+Qed.
+
+(* the documented table for a shared object: every class body that binds it
+   writes the hint [h] (or none) in some accepted spelling *)
+Theorem shared_object_topic_type : forall pr oid o h,
+  nth_error (p_objs pr) oid = Some o ->
+  (exists stmt n ann, In stmt (p_stmts pr) /\ In (OTun n oid ann) stmt) ->
+  (forall stmt n ann, In stmt (p_stmts pr) -> In (OTun n oid ann) stmt ->
+                      exists sp, mksrc (t_orig o) ann = spell_opt sp h) ->
+  res_to_option (decl_topic (t_default o) (obj_hint pr oid)) = spec_decl (t_default o) h.
+Proof.
+  intros pr oid o h Ho Hb Hall. rewrite (shared_object_hint pr oid o h Ho Hb).
+  - apply decl_topic_spec.
+  - intros stmt n ann Hs Hin. destruct (Hall stmt n ann Hs Hin) as [sp ->]. apply spell_opt_hint.
 Qed.
